@@ -37,7 +37,7 @@ from allmydata import uri as uri_mod
 
 CONTAINER_HDR = 0xc          # ShareFile v1 header: version, (unused) length, lease count
 HASH = 32
-LIVELOCK_REPEATS = 300
+LIVELOCK_REPEATS = 400
 
 
 # ------------------------------------------------------------------------------------------------
@@ -281,7 +281,14 @@ class Scenario:
         lay = self.layouts[sh]
         fields = lay.fields()
         op = rng.choice(["field", "field", "field", "field", "block", "block", "delete", "truncate", "flip", "otherfile",
-                         "otherenc", "unusedfield", "container"])
+                         "otherenc", "unusedfield", "container", "tiny"])
+        if self.profile == "c46" and rng.random() < 0.15:
+            op = "tiny"
+        if op == "tiny":
+            # the share data (file minus 12-byte container header minus one 72-byte lease) becomes shorter than the
+            # share's own offset table (0x24 bytes), possibly shorter than the version field or empty
+            cut = CONTAINER_HDR + 72 + rng.choice([0, 1, 3, 4, 13, 35])
+            return b[:cut], "tiny@%d" % cut
         if op == "delete":
             return None, "delete"
         if op == "truncate":
@@ -540,30 +547,34 @@ class Scenario:
             self.lie()
         if fault == "lose":
             self.lost.append(p)
-        sig = (p.server, p.methname, repr(p.args))
-        if sig == self.last_sig and fault is None and len(self.events) == self.last_nev:
+        sig = (p.server, p.methname, repr(p.args), id(p.ref.original))
+        if len(self.events) != self.last_nev:
+            self.seen, self.repeat = {}, 0
+        if sig in self.seen and fault is None:
             self.repeat += 1
         else:
-            self.repeat = 0
-        self.last_sig, self.last_nev, self.last_pending = sig, len(self.events), p
+            self.repeat = 0 if fault is not None else self.repeat
+        self.seen.setdefault(sig, [0, p])[0] += 1
+        self.last_nev = len(self.events)
         g.deliver(choice, fault)
         settle()
         return True
 
     def livelock_cause(self):
-        """Classify the call that repeats forever (for the structural key of the finding)."""
-        p = self.last_pending
-        if p.methname != "read":
-            return "repeated_" + p.methname
-        # which share file is being read?  (BucketReader -> ShareFile.home)
+        """Classify the calls that repeat for ever (for the structural key of the finding)."""
+        loops = [p for (cnt, p) in self.seen.values() if cnt >= 20]
+        if not loops:
+            return "unclassified"
+        if any(p.methname != "read" for p in loops):
+            return "repeated_" + sorted({p.methname for p in loops if p.methname != "read"})[0]
         try:
-            sf = p.ref.original._bucket_reader._share_file
-            datalen = sf._lease_offset - sf._data_offset
+            for p in loops:
+                sf = p.ref.original._bucket_reader._share_file
+                if sf._lease_offset - sf._data_offset >= 0x24:
+                    return "repeated_read"
         except Exception:
             return "repeated_read"
-        if datalen < 0x24:
-            return "share_shorter_than_offset_table"
-        return "repeated_read"
+        return "share_shorter_than_offset_table"
 
     def run(self):
         rng = self.rng
@@ -572,7 +583,7 @@ class Scenario:
         self.resolved_order = []
         self.fail_lost = not any(m == "lose_forever" for m in self.mode.values())
         self.g.log_calls = False
-        self.last_sig, self.last_nev, self.repeat, self.last_pending = None, 0, 0, None
+        self.seen, self.last_nev, self.repeat = {}, 0, 0
         todo = list(self.reads)
         steps = 0
         countdown = None
@@ -601,8 +612,8 @@ class Scenario:
                 if countdown is not None:
                     countdown -= 1
                 if self.repeat >= LIVELOCK_REPEATS:
-                    # the same remote call, answered the same way, LIVELOCK_REPEATS times in a row without any
-                    # read making progress: the client is in an endless request loop
+                    # LIVELOCK_REPEATS deliveries in a row, each a remote call (same object, method, arguments) that
+                    # was already answered since the last read event: the client is in an endless request loop
                     self.events.append({"ev": "Livelock", "unresolved": sorted(self.pending_reads),
                                         "cause": self.livelock_cause(), "repeats": self.repeat})
                     break
